@@ -850,6 +850,9 @@ htp_status_t htp_connp_RES_HEADERS(htp_connp_t *connp) {
                     // hanldes LF-CR sequence as end of line
                     OUT_COPY_BYTE_OR_RETURN(connp);
                     lfcrending = 1;
+#ifdef LIBHTP_VERIF
+                    htp_verif_site(HTP_VERIF_SITE_RES_HDR_LFCR, connp, (long) connp->out_current_read_offset, 0);
+#endif
                 }
             }
 
